@@ -31,6 +31,7 @@ Qed.
 (* while no SRV is cached every try asks (instance, ANY); tries 1 and 2 schedule the next one
    500 ms later, try 3 schedules nothing and takes the instance out of pending_resolves *)
 Theorem followup_step_any s now inst n :
+  has_ptr_to (s_cache s) inst = true ->
   valid_instance_name inst = true -> bm_get inst (c_srv (s_cache s)) = None ->
   exec_resolve s now inst n =
   (if n <? 3
@@ -39,20 +40,21 @@ Theorem followup_step_any s now inst n :
    else forget_pending s inst,
    [OQuery [(inst, TY_ANY)]]).
 Proof.
-  intros Hv Hs. unfold exec_resolve, query_unresolved, forget_pending. rewrite Hv, Hs. simpl.
+  intros Hp Hv Hs. unfold exec_resolve, query_unresolved, forget_pending. rewrite Hp, Hv, Hs. simpl.
   destruct (followup_pinned n) as (_ & _ & _ & _ & _ & Hg & _). rewrite Hg.
   destruct (n <? 3); reflexivity.
 Qed.
 
 (* once an SRV is cached whose target has no address bucket the try asks (host, A), (host, AAAA) *)
 Theorem followup_step_addr s now inst n recs e :
+  has_ptr_to (s_cache s) inst = true ->
   valid_instance_name inst = true -> bm_get inst (c_srv (s_cache s)) = Some recs ->
   find (fun e => match get_addr (s_cache s) (srv_host e) with None => true | Some _ => false end) recs = Some e ->
   snd (exec_resolve s now inst n) = [OQuery [(srv_host e, TY_A); (srv_host e, TY_AAAA)]]
   /\ s_retrans (fst (exec_resolve s now inst n)) =
      if n <? 3 then s_retrans s ++ [(now + 500, RResolve inst (n + 1))] else s_retrans s.
 Proof.
-  intros Hv Hs Hf. unfold exec_resolve, query_unresolved. rewrite Hv, Hs, Hf. simpl.
+  intros Hp Hv Hs Hf. unfold exec_resolve, query_unresolved. rewrite Hp, Hv, Hs, Hf. simpl.
   destruct (followup_pinned n) as (_ & _ & _ & _ & _ & Hg & _). rewrite Hg.
   destruct (n <? 3); split; reflexivity.
 Qed.
@@ -65,16 +67,28 @@ Theorem followup_ends s now inst n recs :
   exec_resolve s now inst n = (forget_pending s inst, []).
 Proof.
   intros Hs Hf. unfold exec_resolve, query_unresolved, forget_pending.
+  destruct (has_ptr_to (s_cache s) inst); [|reflexivity].
   destruct (negb (valid_instance_name inst)); [reflexivity|]. now rewrite Hs, Hf.
 Qed.
+
+(* fix 48ec5c0: when no cached PTR record points to the instance any more (stop_browse, PTR
+   goodbye / expiry) the try asks nothing, the chain ends and the instance is no longer pending *)
+Theorem followup_stops_without_ptr s now inst n :
+  has_ptr_to (s_cache s) inst = false -> exec_resolve s now inst n = (forget_pending s inst, []).
+Proof. intros H. unfold exec_resolve, forget_pending. now rewrite H. Qed.
 
 (* when the chain is over (third try done, or nothing missing) the instance is no longer
    pending: a later ServiceFound of it starts a new chain (followup_first applies again) *)
 Theorem followup_over_allows_new_round s now inst n :
-  (n <? 3) = false \/ fst (query_unresolved (s_cache s) inst) = false ->
+  (n <? 3) = false \/ has_ptr_to (s_cache s) inst = false \/ fst (query_unresolved (s_cache s) inst) = false ->
   mem inst (s_pending (fst (exec_resolve s now inst n))) = false.
 Proof.
-  intros H. unfold exec_resolve. destruct (query_unresolved (s_cache s) inst) as [sent o]. simpl in H.
+  intros H. unfold exec_resolve.
+  destruct (has_ptr_to (s_cache s) inst); [|simpl; apply mem_set_remove].
+  assert (H' : (n <? 3) = false \/ fst (query_unresolved (s_cache s) inst) = false)
+    by (destruct H as [H|[H|H]]; [now left|discriminate|now right]).
+  clear H. rename H' into H.
+  destruct (query_unresolved (s_cache s) inst) as [sent o]. simpl in H.
   assert (Hc : sent && retry_guard n max_try = false).
   { destruct (followup_pinned n) as (_ & _ & _ & _ & _ & Hg & _). rewrite Hg.
     destruct H as [H|H]; rewrite H; [apply andb_false_r|reflexivity]. }
@@ -84,6 +98,7 @@ Qed.
 (* the chain of an instance whose SRV never arrives: exactly three questions, at +500, +1000,
    +1500 when every wake-up is on time *)
 Theorem followup_three_tries s t inst :
+  has_ptr_to (s_cache s) inst = true ->
   valid_instance_name inst = true -> bm_get inst (c_srv (s_cache s)) = None ->
   let s1 := fst (exec_resolve s (t + 500) inst 1) in
   let s2 := fst (exec_resolve s1 (t + 1000) inst 2) in
@@ -95,14 +110,14 @@ Theorem followup_three_tries s t inst :
   /\ snd (exec_resolve s1 (t + 1000) inst 2) = [OQuery [(inst, TY_ANY)]]
   /\ snd (exec_resolve s2 (t + 1500) inst 3) = [OQuery [(inst, TY_ANY)]].
 Proof.
-  intros Hv Hs. cbv zeta.
-  rewrite (followup_step_any s (t + 500) inst 1 Hv Hs). simpl.
+  intros Hp Hv Hs. cbv zeta.
+  rewrite (followup_step_any s (t + 500) inst 1 Hp Hv Hs). simpl.
   set (s1 := mkSt (s_cache s) (s_q s) (s_pending s) (s_resolved s)
                   (s_retrans s ++ [(t + 500 + 500, RResolve inst 2)])).
-  rewrite (followup_step_any s1 (t + 1000) inst 2 Hv Hs). simpl.
+  rewrite (followup_step_any s1 (t + 1000) inst 2 Hp Hv Hs). simpl.
   set (s2 := mkSt (s_cache s) (s_q s) (s_pending s) (s_resolved s)
                   ((s_retrans s ++ [(t + 500 + 500, RResolve inst 2)]) ++ [(t + 1000 + 500, RResolve inst 3)])).
-  rewrite (followup_step_any s2 (t + 1500) inst 3 Hv Hs). simpl.
+  rewrite (followup_step_any s2 (t + 1500) inst 3 Hp Hv Hs). simpl.
   repeat split; f_equal; f_equal; f_equal; lia.
 Qed.
 
